@@ -714,8 +714,7 @@ Proof.
   destruct (t_once t || t_run t); inversion H; subst s'; clear H; [exact I|].
   pose proof (i_thread s I i t Et) as Hto.
   eapply inv_set_thread; eauto.
-  - unfold thread_ok in *. cbn. rewrite Eo in *. rewrite Ep in *. exact Hto.
-  - intros c0. left. unfold holds. cbn. reflexivity.
+  all: try (intros c0; left; reflexivity).
 Qed.
 
 Lemma inv_step s l s' : inv s -> step s l = Some s' -> inv s'.
